@@ -1,0 +1,27 @@
+#ifndef OCCA_INTERNAL_UTILS_VERIF_HEADER
+#define OCCA_INTERNAL_UTILS_VERIF_HEADER
+
+// Verification hook (off unless LIBOCCA_OCCA_VERIF is defined):
+// counts constructions and destructions of backend ("mode") objects so an
+// external harness can compare them with a reference model.
+
+#ifdef LIBOCCA_OCCA_VERIF
+namespace occa {
+  namespace verif {
+    enum objectKind {
+      kDevice = 0, kBuffer, kMemory, kMemoryPool,
+      kKernel, kStream, kStreamTag, kKindCount
+    };
+    extern long created[kKindCount];
+    extern long destroyed[kKindCount];
+    void count(long *counters, int kind);
+  }
+}
+#  define OCCA_VERIF_CREATED(KIND)   ::occa::verif::count(::occa::verif::created,   ::occa::verif::KIND)
+#  define OCCA_VERIF_DESTROYED(KIND) ::occa::verif::count(::occa::verif::destroyed, ::occa::verif::KIND)
+#else
+#  define OCCA_VERIF_CREATED(KIND)
+#  define OCCA_VERIF_DESTROYED(KIND)
+#endif
+
+#endif
